@@ -233,3 +233,14 @@ def run(ctx: Ctx, rep: Report, tier: str):
     from rules.C07 import C07 as _C07
     _alias(rep, ["C07.R4"], "C02.R8", "an existing peer file is adopted as 'already synced' only if its hash equals the hash of the bytes being created (C07.R4): "
            "otherwise one of two different contents would be booked as synced and never reconciled", 3, lambda: _C07(ctx, rep).r4())
+    from rules.common import split_contract, transfer_success_chain
+    rep.rule("C02.R9", "a conflict is kept as two entries, never merged away: SyncState.split moves the LOCAL half to a new entry, clears it from the original, marks both "
+             "changed and unsynced (C05.V15)", 7)
+    split_contract(ctx, rep, "C02.R9")
+    rep.rule("C02.R10", "content is reported propagated only after it was: handle_hash_diff returns FINISHED only after download_changed and upload_synced both reported "
+             "success; a falsy result of either is a PUNT", 2)
+    transfer_success_chain(ctx, rep, "C02.R10")
+    from rules.common import definition_holds
+    rep.rule("C02.R11", "the definitions the destructive arms are guarded with: is_creation (a pending creation is never deleted under) and is_deletion", 2)
+    definition_holds(ctx, rep, "C02.R11", "SyncEntry.is_creation", "the guard 'the other side holds a pending creation' no longer means that: a delete can win over a new file")
+    definition_holds(ctx, rep, "C02.R11", "SyncEntry.is_deletion", "a side that is not deleted is treated as deleted (its peer is removed), or a real delete is not propagated")
